@@ -3,7 +3,7 @@ from hypothesis import strategies as st
 from hypothesis.stateful import RuleBasedStateMachine, initialize, invariant, rule
 from metapype.model.node import Node
 
-from vf.runner import CaseTimeout, Violation, hyp_machine, machine_violation, time_limit
+from vf.runner import CaseTimeout, Violation, hyp_machine, hyp_search, machine_violation, time_limit
 
 ID = "C13"
 RULE = ("Operations attach (add_child), detach (remove_child), declare (add_namespace incl. re-declaration with the same "
@@ -350,8 +350,72 @@ class NsMachine(RuleBasedStateMachine):
                 ctx.sample("machine-history", {"nodes": self.n, "history": [list(o) for o in self.history]})
 
 
+# ------------------------------------------------------------------ attach scenarios (subtree built first, attached last)
+
+PFX = ["p", "q", "r", "s", "t"]
+
+
+@st.composite
+def attach_case(draw):
+    """node 0 = parent, node 1 = child, nodes 2.. = grandchildren (and some great-grandchildren) that hold their own maps;
+    the parent gets 2-4 prefixes, then the prepared subtree is attached"""
+    k = draw(st.integers(2, 4))
+    n = 2 + k + draw(st.integers(0, 2))
+    ops = []
+    for g in range(2, n):
+        for _ in range(draw(st.integers(1, 2))):
+            ops.append(("declare", g, draw(st.sampled_from(PFX)), draw(st.sampled_from(["U1", "U2", "U3"]))))
+    for g in range(2, 2 + k):
+        ops.append(("attach", 1, g))
+    for g in range(2 + k, n):
+        ops.append(("attach", draw(st.integers(2, 1 + k)), g))
+    for _ in range(draw(st.integers(0, 2))):
+        ops.append(("declare", 1, draw(st.sampled_from(PFX)), draw(st.sampled_from(["U1", "U2", "U3"]))))
+    if draw(st.booleans()):
+        ops = draw(st.permutations(ops))
+        ops = [o for o in ops]
+    for pf in draw(st.permutations(PFX))[:draw(st.integers(2, 4))]:
+        ops.append(("declare", 0, pf, draw(st.sampled_from(["U1", "U2", "U3"]))))
+    ops.append(("attach", 0, 1))
+    if draw(st.booleans()):
+        ops.append(("declare", draw(st.integers(0, n - 1)), draw(st.sampled_from(PFX)), "U4"))
+        ops.append(("remove", draw(st.integers(0, n - 1)), draw(st.sampled_from(PFX))))
+    return n, ops
+
+
+def check_sequence(n, ops):
+    """apply the operations one after another on ONE forest (natural allocation pattern) and compare after each"""
+    case = {"nodes": n, "sequence": [list(o) for o in ops]}
+    Node.store.clear()
+    nodes = [Node(f"n{i}") for i in range(n)]
+    m = Model(n)
+    for op in ops:
+        if not m.enabled(op):
+            continue
+        inside = set(m.sub(op[1])) if op[0] in ("declare", "remove") else set(m.sub(op[2])) if op[0] == "attach" else set()
+        err = real_apply(nodes, op)
+        if err:
+            raise Violation(op[0] + "-raises:" + err.split(":")[0], f"{op}: {err}", case)
+        m.apply(op)
+        d = compare(nodes, m)
+        if d:
+            raise Violation(f"{op[0]}-{'outside-subtree' if d[0] not in inside else 'inside-subtree'}", f"after {op}: {d[1]}", case)
+
+
+def attach_shard(ctx, shard):
+    n = (3200 if ctx.quick else 96000) // 16
+
+    def body(c):
+        ctx.note(key=c, nontrivial=True, cls="attach-scenario")
+        check_sequence(*c)
+        if len(c[1]) <= 9:
+            ctx.sample("attach-scenario", {"nodes": c[0], "sequence": [list(o) for o in c[1]]})
+
+    hyp_search(ctx, "attach-scenarios", attach_case(), body, n, shard=shard)
+
+
 def machine_shard(ctx, shard):
-    n = (480 if ctx.quick else 24000) // 16
+    n = (1600 if ctx.quick else 32000) // 16
     hyp_machine(ctx, "namespace-histories", NsMachine, n, 50 if ctx.quick else 150, shard=shard)
 
 
@@ -364,11 +428,15 @@ def run(ctx):
         bfs(ctx, 3, ["p", "q"], 99)
         bfs(ctx, 4, ["p"], 99)
     ctx.pmap(machine_shard, range(16))
+    ctx.pmap(attach_shard, range(16))
 
 
 def replay(case):
     n = case["nodes"]
     try:
+        if "sequence" in case:
+            check_sequence(n, [tuple(o) for o in case["sequence"]])
+            return None
         if "history" in case:
             hist = [tuple(o) for o in case["history"]]
             path = []
